@@ -146,6 +146,39 @@ def build(case):
     return cell, sym, hk, UBs, np.ascontiguousarray(gv[o]), owner[o], redraws
 
 
+def ring_fixes_orientation(table, B, ctol):
+    """True when two peaks of one ring determine the lattice: every two assignments (h1, h2), (h1', h2') of table
+    members to a pair of peaks whose angles agree within the cosine tolerance give the same lattice (they differ by a
+    rotation of the lattice).  Otherwise two peaks leave a choice between different lattices (the two-peak
+    ambiguity: mirror images through the plane of the two vectors) and one ring alone need not find the grain."""
+    hk = np.array(sorted(table), float)
+    if len(hk) > 12:
+        return False
+    G = hk @ B.T
+    n = G / np.linalg.norm(G, axis=1)[:, None]
+    C = n @ n.T
+    pairs = [(a, b) for a in range(len(hk)) for b in range(len(hk)) if abs(C[a, b]) < 0.98]
+    if not pairs:
+        return False
+    Bi = np.linalg.inv(B)
+
+    def frame(a, b):
+        t1 = n[a]
+        t3 = np.cross(n[a], n[b])
+        t3 /= np.linalg.norm(t3)
+        return np.array([t1, np.cross(t3, t1), t3]).T
+    F = {p_: frame(*p_) for p_ in pairs}
+    for x, (a, b) in enumerate(pairs):
+        for (a2, b2) in pairs[x + 1:]:
+            if abs(C[a, b] - C[a2, b2]) < ctol + 1e-6:
+                # rotation taking the first assignment's crystal frame onto the second's
+                Q = F[(a2, b2)] @ F[(a, b)].T
+                M = Bi @ Q @ B
+                if np.abs(M - np.rint(M)).max() > 1e-6:
+                    return False
+    return True
+
+
 def counts(ubi, gv, tol):
     e, hi = oracles.lattice_errors(ubi, gv)
     t2 = tol * tol
@@ -172,6 +205,7 @@ def check(case, rec=None):
     uc = unitcell.unitcell(cell, sym)
     passes = case.get("passes", 1)
     single_round = passes == 1
+    dohist_used = "none"
     minpks_low = minpks
     if case["driver"] == "score_all_pairs":
         ok, ind = guard(indexing.indexer, unitcell=uc, gv=gv, wavelength=0.3, minpks=minpks, hkl_tol=tol,
@@ -227,14 +261,32 @@ def check(case, rec=None):
             forgen = rings[:6]
             dohist = case.get("dohist", "none")
             if dohist == "single_forgen":
+                # a ring fixes the orientations when every simulated grain has two peaks assigned to it that are not
+                # (anti)parallel.  Judged on the peaks as assigned: with close rings and a wide ds_tol the members of
+                # a ring of the table can be handed to its neighbour, leaving Friedel pairs only
                 Bm = gens.busing_levy_B(cell)
                 for rr in rings[:6]:
-                    hs = np.array(probe.unitcell.ringhkls[probe.unitcell.ringds[rr]], float) @ Bm.T
-                    hs /= np.linalg.norm(hs, axis=1)[:, None]
-                    cs = np.abs(hs @ hs.T)
-                    if (cs < 0.9).any():                  # the ring holds two directions that fix an orientation
+                    good = True
+                    table = set(tuple(int(x) for x in h) for h in probe.unitcell.ringhkls[probe.unitcell.ringds[rr]])
+                    for g_ in range(ng):
+                        hs = gv[(owner == g_) & (probe.ra == rr)]
+                        # ... and only peaks whose own hkl is in the ring's table count (the pair angles searched
+                        # for are those of the table)
+                        if len(hs):
+                            hint = np.rint(hs @ np.linalg.inv(UBs[g_]).T).astype(int)
+                            hs = hs[[tuple(h) in table for h in hint.tolist()]]
+                        if len(hs) < 2:
+                            good = False
+                            break
+                        hs = hs / np.linalg.norm(hs, axis=1)[:, None]
+                        if not (np.abs(hs @ hs.T) < 0.9).any():
+                            good = False
+                            break
+                    if good and ring_fixes_orientation(table, Bm, abs(case["cosine_tol"])):
                         forgen = [rr]
                         break
+                else:
+                    dohist = "single_forgen:no_ring_fixes_the_orientation"
             elif dohist == "shared_unitcell" and len(rings) >= 4:
                 low = rings[:max(2, len(rings) // 3)]
                 import io as _io, contextlib as _ctx
@@ -245,6 +297,7 @@ def check(case, rec=None):
                 if not ok:
                     return [exc_failure("indexing.do_index (low-angle rings first)", r)]
                 forgen = rings[len(low):][:6]              # now search from the rings beyond those
+            dohist_used = dohist
             # do_index computes minpks as frac * (sum of multiplicities * omega_range / 180)
             ok, r = guard(indexing.do_index, cf, dstol=case["ds_tol"], hkl_tols=(tol,), fracs=(case["frac"],),
                           cosine_tol=abs(case["cosine_tol"]), max_grains=100, forgen=forgen, foridx=rings,
@@ -348,7 +401,7 @@ def check(case, rec=None):
         rec.case(case, nt, ["sound" if case["sound"] else "complete", "lat:" + case["lattice"],
                             "driver:" + case["driver"]] + (["cosine_all_mode"] if case["cosine_tol"] < 0 else []) +
                  (["second_pass"] if passes != 1 else []) +
-                 (["do_index:" + case["dohist"]] if case.get("dohist", "none") != "none" else []) +
+                 (["do_index:" + dohist_used] if dohist_used != "none" else []) +
                  (["blind_cone:%d" % case["cone"]] if case.get("cone") else []))
         rec.note("reported_ubis", len(ubis))
     return fails
